@@ -10,6 +10,7 @@ use std::collections::HashMap;
 use std::convert::{TryFrom, TryInto};
 use std::fmt;
 use std::fmt::{Display, Formatter};
+use std::hash::{Hash, Hasher};
 use std::ops::{Add, Div, Mul, Sub};
 
 pub type VMap = HashMap<String, Value>;
@@ -86,7 +87,7 @@ impl serde::Serialize for Record {
     }
 }
 
-#[derive(Clone, Debug, PartialEq, Eq, Hash)]
+#[derive(Clone, Debug, PartialEq, Eq)]
 pub enum Value {
     Str(String),
     // Consider big int
@@ -98,6 +99,29 @@ pub enum Value {
     Obj(im::HashMap<String, Value>),
     Array(Vec<Value>),
     None,
+}
+
+// Hash must agree with Eq: im::HashMap hashes its entries in iteration order, which differs
+// between equal maps, so objects are hashed through their sorted entries instead.
+impl Hash for Value {
+    fn hash<H: Hasher>(&self, state: &mut H) {
+        std::mem::discriminant(self).hash(state);
+        match self {
+            Value::Str(s) => s.hash(state),
+            Value::Int(i) => i.hash(state),
+            Value::Float(f) => f.hash(state),
+            Value::Bool(b) => b.hash(state),
+            Value::DateTime(dt) => dt.hash(state),
+            Value::Duration(d) => d.hash(state),
+            Value::Obj(map) => {
+                for entry in map.iter().sorted_by(|l, r| l.0.cmp(r.0)) {
+                    entry.hash(state);
+                }
+            }
+            Value::Array(v) => v.hash(state),
+            Value::None => {}
+        }
+    }
 }
 
 impl serde::Serialize for Value {
